@@ -120,8 +120,9 @@ pub fn aead_seal(key: &[u8; 32], nonce: &[u8; 12], aad: &[u8], pt: &[u8]) -> Vec
         }
         let mut out = vec![0u8; pt.len() + 16];
         let mut total = 0usize;
-        if !pt.is_empty() {
-            assert_eq!(EVP_EncryptUpdate(ctx, out.as_mut_ptr(), &mut outl, pt.as_ptr(), pt.len() as c_int), 1);
+        // (pieces of at most 1 GiB: the length argument is a C int)
+        for piece in pt.chunks(1 << 30) {
+            assert_eq!(EVP_EncryptUpdate(ctx, out.as_mut_ptr().add(total), &mut outl, piece.as_ptr(), piece.len() as c_int), 1);
             total += outl as usize;
         }
         assert_eq!(EVP_EncryptFinal_ex(ctx, out.as_mut_ptr().add(total), &mut outl), 1);
